@@ -109,4 +109,371 @@ theorem Metadata.decode_canon {bs : Bytes} {m : Metadata} (h : Metadata.decode b
 theorem Header.decode_canon {bs : Bytes} {hd : Header} (h : Header.decode bs = some hd) :
     Header.decode hd.encode = some hd := Header.decode_encode (Header.decode_wf h)
 
+/-! ### size accounting: payloads of distinct field numbers fit into the input
+
+Needed for the nested messages: the re-encoded inner message must again be shorter than `2^64`
+to be a legal `len` payload.  Go byte slices are shorter than `2^63` (`len` is an `int`), the
+re-encoding of an inner message is at most a constant longer than the payload bytes it came from. -/
+
+def payLen (k : Nat) (f : Field) : Nat := match pickLen k f with | some b => b.length | none => 0
+def occSum (k : Nat) (fs : List Field) : Nat := (fs.map (payLen k)).sum
+
+theorem occSum_cons (k : Nat) (f : Field) (fs : List Field) : occSum k (f :: fs) = payLen k f + occSum k fs := by
+  simp [occSum]
+
+theorem flatten_getRep_length (k : Nat) (fs : List Field) : ((getRep k fs).flatten).length = occSum k fs := by
+  induction fs with
+  | nil => simp [getRep, occSum]
+  | cons f fs ih =>
+    rw [occSum_cons, ← ih]
+    unfold getRep payLen
+    rw [List.filterMap_cons]
+    cases pickLen k f <;> simp
+
+theorem mem_length_le_flatten {b : Bytes} {L : List Bytes} (h : b ∈ L) : b.length ≤ L.flatten.length := by
+  induction L with
+  | nil => simp at h
+  | cons a L ih =>
+    simp only [List.mem_cons] at h
+    rcases h with rfl | h
+    · simp
+    · have := ih h; simp only [List.flatten_cons, List.length_append]; omega
+
+theorem getLen_le_occSum (k : Nat) (fs : List Field) : (getLen k fs).length ≤ occSum k fs := by
+  rw [← flatten_getRep_length]
+  unfold getLen
+  cases h : (fs.filterMap (pickLen k)).getLast? with
+  | none => simp
+  | some b => exact mem_length_le_flatten (List.mem_of_getLast? h)
+
+theorem payLen_le (k : Nat) (f : Field) : payLen k f ≤ (encField f).length := by
+  unfold payLen
+  cases h : pickLen k f with
+  | none => simp
+  | some b => rw [pickLen_some h]; simp [encField]; omega
+
+theorem sum_map_zero {ks : List Nat} {g : Nat → Nat} (h : ∀ k ∈ ks, g k = 0) : (ks.map g).sum = 0 := by
+  induction ks with
+  | nil => simp
+  | cons k ks ih =>
+    simp only [List.map_cons, List.sum_cons, h k (by simp), Nat.zero_add]
+    exact ih (fun k' hk' => h k' (by simp [hk']))
+
+theorem sum_map_add (ks : List Nat) (g1 g2 : Nat → Nat) :
+    (ks.map (fun k => g1 k + g2 k)).sum = (ks.map g1).sum + (ks.map g2).sum := by
+  induction ks with
+  | nil => simp
+  | cons k ks ih => simp only [List.map_cons, List.sum_cons, ih]; omega
+
+theorem payLen_sum_le (ks : List Nat) (hn : ks.Nodup) (f : Field) :
+    (ks.map (fun k => payLen k f)).sum ≤ (encField f).length := by
+  induction ks with
+  | nil => simp
+  | cons k ks ih =>
+    rw [List.nodup_cons] at hn
+    simp only [List.map_cons, List.sum_cons]
+    cases h : pickLen k f with
+    | none =>
+      have : payLen k f = 0 := by simp [payLen, h]
+      have := ih hn.2; omega
+    | some b =>
+      have hf := pickLen_some h
+      have hz : (ks.map (fun k => payLen k f)).sum = 0 := by
+        apply sum_map_zero
+        intro k' hk'
+        have hne : k ≠ k' := fun e => hn.1 (e ▸ hk')
+        subst hf
+        simp [payLen, pickLen, hne]
+      have := payLen_le k f; omega
+
+theorem occSum_sum_le (ks : List Nat) (hn : ks.Nodup) (fs : List Field) :
+    (ks.map (fun k => occSum k fs)).sum ≤ (encFields fs).length := by
+  induction fs with
+  | nil => simp [occSum, encFields, sum_map_zero]
+  | cons f fs ih =>
+    have e : (fun k => occSum k (f :: fs)) = (fun k => payLen k f + occSum k fs) := by
+      funext k; exact occSum_cons k f fs
+    rw [e, sum_map_add, encFields_cons, List.length_append]
+    have := payLen_sum_le ks hn f
+    omega
+
+/-- the re-encoding of a decoded `Metadata` is at most 80 bytes longer than the input -/
+theorem Metadata.decode_length {bs : Bytes} {m : Metadata} (h : Metadata.decode bs = some m) :
+    m.encode.length ≤ bs.length + 80 := by
+  unfold Metadata.decode at h
+  split at h
+  · simp at h
+  · rename_i fs hd
+    have hl := decFields_length hd
+    split at h
+    · rename_i cid hc
+      split at h
+      · simp only [Option.some.injEq] at h; subst h
+        have hs := occSum_sum_le [1, 4] (by decide) fs
+        simp only [List.map_cons, List.map_nil, List.sum_cons, List.sum_nil] at hs
+        have h1 := getLen_le_occSum 1 fs
+        have h4 := getLen_le_occSum 4 fs
+        unfold Metadata.encode Metadata.fields
+        simp only [encFields_append, List.length_append, utf8_of_ofUtf8? hc]
+        have a1 := encFields_optB_length 1 (getLen 1 fs)
+        have a2 := encFields_optV_length 2 (getVarint 2 fs)
+        have a3 := encFields_optV_length 3 (getVarint 3 fs)
+        have a4 := encFields_optB_length 4 (getLen 4 fs)
+        omega
+      · simp at h
+    · simp at h
+
+/-- … of a decoded `Header` at most 300 bytes longer -/
+theorem Header.decode_length {bs : Bytes} {hd : Header} (h : Header.decode bs = some hd) :
+    hd.encode.length ≤ bs.length + 300 := by
+  unfold Header.decode at h
+  split at h
+  · simp at h
+  · rename_i fs hdf
+    have hl := decFields_length hdf
+    split at h
+    · rename_i v cid hv hc
+      split at h
+      · simp only [Option.some.injEq] at h; subst h
+        have hs := occSum_sum_le [4, 5, 6, 7, 8, 9, 10, 11, 12] (by decide) fs
+        simp only [List.map_cons, List.map_nil, List.sum_cons, List.sum_nil] at hs
+        have h4 := getLen_le_occSum 4 fs
+        have h5 := getLen_le_occSum 5 fs
+        have h6 := getLen_le_occSum 6 fs
+        have h7 := getLen_le_occSum 7 fs
+        have h8 := getLen_le_occSum 8 fs
+        have h9 := getLen_le_occSum 9 fs
+        have h10 := getLen_le_occSum 10 fs
+        have h11 := getLen_le_occSum 11 fs
+        have h12 := getLen_le_occSum 12 fs
+        unfold Header.encode Header.fields
+        simp only [encFields_append, List.length_append, utf8_of_ofUtf8? hc]
+        have a1 := encFields_single_length 1 (v.getD {}).encode
+        have av := Version.encode_length (v.getD {})
+        have a2 := encFields_optV_length 2 (getVarint 2 fs)
+        have a3 := encFields_optV_length 3 (getVarint 3 fs)
+        have a4 := encFields_optB_length 4 (getLen 4 fs)
+        have a5 := encFields_optB_length 5 (getLen 5 fs)
+        have a6 := encFields_optB_length 6 (getLen 6 fs)
+        have a7 := encFields_optB_length 7 (getLen 7 fs)
+        have a8 := encFields_optB_length 8 (getLen 8 fs)
+        have a9 := encFields_optB_length 9 (getLen 9 fs)
+        have a10 := encFields_optB_length 10 (getLen 10 fs)
+        have a11 := encFields_optB_length 11 (getLen 11 fs)
+        have a12 := encFields_optB_length 12 (getLen 12 fs)
+        omega
+      · simp at h
+    · simp at h
+
+/-! ### Data -/
+
+theorem Data.decode_wf {bs : Bytes} {d : Data} (hb : bs.length < 2 ^ 63) (h : Data.decode bs = some d) : d.WF := by
+  unfold Data.decode at h
+  split at h
+  · simp at h
+  · rename_i fs hd
+    have hw := decFields_wf hd
+    have hl := decFields_length hd
+    split at h
+    · rename_i m hm
+      simp only [Option.some.injEq] at h; subst h
+      refine ⟨?_, getRep_lt hw⟩
+      intro m' hm'
+      simp only [Option.mem_def] at hm'
+      subst hm'
+      have hdm := getMsg_some hm
+      refine ⟨Metadata.decode_wf hdm, ?_⟩
+      have := Metadata.decode_length hdm
+      rw [flatten_getRep_length] at this
+      have hs := occSum_sum_le [1] (by decide) fs
+      simp only [List.map_cons, List.map_nil, List.sum_cons, List.sum_nil] at hs
+      omega
+    · simp at h
+
+/-- a decoded `Data` re-encodes and decodes to itself (for every input a Go slice can hold) -/
+theorem Data.decode_canon {bs : Bytes} {d : Data} (hb : bs.length < 2 ^ 63) (h : Data.decode bs = some d) :
+    Data.decode d.encode = some d := Data.decode_encode (Data.decode_wf hb h)
+
+/-- encoded size of the transaction fields of a decoded `Data` -/
+def txLen (f : Field) : Nat := match pickLen 2 f with | some b => (encField (2, .len b)).length | none => 0
+
+theorem encFields_txs_length (fs : List Field) :
+    (encFields ((getRep 2 fs).map (fun t => ((2, WVal.len t) : Field)))).length = (fs.map txLen).sum := by
+  induction fs with
+  | nil => simp [getRep, encFields]
+  | cons f fs ih =>
+    unfold getRep at ih ⊢
+    rw [List.filterMap_cons, List.map_cons, List.sum_cons, ← ih]
+    unfold txLen
+    cases pickLen 2 f with
+    | none => simp
+    | some b => simp only [List.map_cons, encFields_cons, List.length_append]
+
+theorem pay1_tx_le (f : Field) : payLen 1 f + txLen f ≤ (encField f).length := by
+  unfold txLen
+  cases h : pickLen 2 f with
+  | none => have := payLen_le 1 f; simp; omega
+  | some b =>
+    have hf := pickLen_some h
+    subst hf
+    simp [payLen, pickLen]
+
+theorem occ1_txs_le (fs : List Field) : occSum 1 fs + (fs.map txLen).sum ≤ (encFields fs).length := by
+  induction fs with
+  | nil => simp [occSum, encFields]
+  | cons f fs ih =>
+    rw [occSum_cons, List.map_cons, List.sum_cons, encFields_cons, List.length_append]
+    have := pay1_tx_le f
+    omega
+
+/-- the re-encoding of a decoded `Data` is at most 100 bytes longer than the input -/
+theorem Data.decode_length {bs : Bytes} {d : Data} (h : Data.decode bs = some d) :
+    d.encode.length ≤ bs.length + 100 := by
+  unfold Data.decode at h
+  split at h
+  · simp at h
+  · rename_i fs hd
+    have hl := decFields_length hd
+    split at h
+    · rename_i m hm
+      simp only [Option.some.injEq] at h; subst h
+      unfold Data.encode Data.fields
+      simp only [encFields_append, List.length_append, encFields_txs_length]
+      have hs := occ1_txs_le fs
+      cases m with
+      | none => simp [encFields]; omega
+      | some m' =>
+        have hdm := getMsg_some hm
+        have := Metadata.decode_length hdm
+        rw [flatten_getRep_length] at this
+        have := encFields_single_length 1 m'.encode
+        simp only
+        omega
+    · simp at h
+
+/-! ### Signer, SignedHeader, SignedData -/
+
+theorem Signer.canon_wf {s : Signer} (h : s.WF) : s.canon.WF := by
+  unfold Signer.canon; split
+  · exact (by decide : ({} : Signer).WF)
+  · exact h
+
+theorem Signer.decodeRaw_wf {bs : Bytes} {s : Signer} (h : Signer.decodeRaw bs = some s) :
+    s.WF ∧ s.canon.encode.length ≤ bs.length + 40 := by
+  unfold Signer.decodeRaw at h
+  cases hd : decFields bs with
+  | none => simp [hd] at h
+  | some fs =>
+    simp [hd] at h; subst h
+    have hw := decFields_wf hd
+    have hl := decFields_length hd
+    refine ⟨⟨getLen_lt hw, getLen_lt hw⟩, ?_⟩
+    unfold Signer.canon
+    split
+    · simp [Signer.encode, Signer.fields, encFields]
+    · rename_i hk
+      simp only at hk
+      unfold Signer.encode Signer.fields
+      simp only [hk, ↓reduceIte, encFields_append, List.length_append]
+      have hs := occSum_sum_le [1, 2] (by decide) fs
+      simp only [List.map_cons, List.map_nil, List.sum_cons, List.sum_nil] at hs
+      have h1 := getLen_le_occSum 1 fs
+      have h2 := getLen_le_occSum 2 fs
+      have a1 := encFields_optB_length 1 (getLen 1 fs)
+      have a2 := encFields_optB_length 2 (getLen 2 fs)
+      omega
+
+theorem getMsg_signer {fs : List Field} {sg : Option Signer} (h : getMsg 3 Signer.decodeRaw fs = some sg) :
+    (sg.getD {}).WF ∧ (sg.getD {}).canon.encode.length ≤ occSum 3 fs + 40 := by
+  cases sg with
+  | none => exact ⟨by decide, by simp [Signer.canon, Signer.encode, Signer.fields, encFields]⟩
+  | some s =>
+    have := Signer.decodeRaw_wf (getMsg_some h)
+    rw [flatten_getRep_length] at this
+    exact this
+
+theorem SignedHeader.decode_wf (keyOk : Bytes → Bool) {bs : Bytes} {sh : SignedHeader}
+    (hb : bs.length < 2 ^ 63) (h : SignedHeader.decode keyOk bs = some sh) :
+    sh.WF ∧ (sh.signer.pubKey ≠ [] → keyOk sh.signer.pubKey = true) ∧ sh.canon' = sh := by
+  unfold SignedHeader.decode at h
+  split at h
+  · simp at h
+  · rename_i fs hd
+    have hw := decFields_wf hd
+    have hl := decFields_length hd
+    split at h
+    · rename_i hdr sg hh hs
+      simp only at h
+      split at h
+      · simp at h
+      · rename_i hk
+        simp only [Option.some.injEq] at h; subst h
+        have hdh := getMsg_some hh
+        have hlen := Header.decode_length hdh
+        rw [flatten_getRep_length] at hlen
+        have ⟨sw, sl⟩ := getMsg_signer hs
+        have hsum := occSum_sum_le [1, 3] (by decide) fs
+        simp only [List.map_cons, List.map_nil, List.sum_cons, List.sum_nil] at hsum
+        refine ⟨⟨Header.decode_wf hdh, by simp only; omega, getLen_lt hw, Signer.canon_wf sw, by simp only; omega⟩, ?_, ?_⟩
+        · simp only [Signer.canon_pubKey]
+          intro hne
+          cases hkk : keyOk (sg.getD {}).pubKey with
+          | true => rfl
+          | false => exact absurd ⟨hne, by simp [hkk]⟩ hk
+        · simp [SignedHeader.canon', Signer.canon_canon]
+    · simp at h
+
+/-- a decoded `SignedHeader` re-encodes and decodes to itself -/
+theorem SignedHeader.decode_canon (keyOk : Bytes → Bool) {bs : Bytes} {sh : SignedHeader}
+    (hb : bs.length < 2 ^ 63) (h : SignedHeader.decode keyOk bs = some sh) :
+    SignedHeader.decode keyOk sh.encode = some sh := by
+  have ⟨hw, hk, hc⟩ := SignedHeader.decode_wf keyOk hb h
+  have := SignedHeader.decode_encode keyOk hw hk
+  rwa [hc] at this
+
+theorem SignedData.decode_wf (keyOk : Bytes → Bool) {bs : Bytes} {sd : SignedData}
+    (hb : bs.length < 2 ^ 63) (h : SignedData.decode keyOk bs = some sd) :
+    sd.WF ∧ (sd.signer.pubKey ≠ [] → keyOk sd.signer.pubKey = true) ∧ sd.canon' = sd := by
+  unfold SignedData.decode at h
+  split at h
+  · simp at h
+  · rename_i fs hd
+    have hw := decFields_wf hd
+    have hl := decFields_length hd
+    split at h
+    · rename_i d sg hh hs
+      simp only at h
+      split at h
+      · simp at h
+      · rename_i hk
+        simp only [Option.some.injEq] at h; subst h
+        have ⟨sw, sl⟩ := getMsg_signer hs
+        have hsum := occSum_sum_le [1, 3] (by decide) fs
+        simp only [List.map_cons, List.map_nil, List.sum_cons, List.sum_nil] at hsum
+        have hdata : (d.getD {}).WF ∧ (d.getD {}).encode.length ≤ occSum 1 fs + 100 := by
+          cases d with
+          | none => exact ⟨by decide, by simp [Data.encode, Data.fields, encFields]⟩
+          | some d' =>
+            have hdd := getMsg_some hh
+            have hlen := Data.decode_length hdd
+            rw [flatten_getRep_length] at hlen
+            refine ⟨Data.decode_wf ?_ hdd, hlen⟩
+            rw [flatten_getRep_length]; omega
+        refine ⟨⟨hdata.1, by simp only; omega, getLen_lt hw, Signer.canon_wf sw, by simp only; omega⟩, ?_, ?_⟩
+        · simp only [Signer.canon_pubKey]
+          intro hne
+          cases hkk : keyOk (sg.getD {}).pubKey with
+          | true => rfl
+          | false => exact absurd ⟨hne, by simp [hkk]⟩ hk
+        · simp [SignedData.canon', Signer.canon_canon]
+    · simp at h
+
+/-- a decoded `SignedData` re-encodes and decodes to itself -/
+theorem SignedData.decode_canon (keyOk : Bytes → Bool) {bs : Bytes} {sd : SignedData}
+    (hb : bs.length < 2 ^ 63) (h : SignedData.decode keyOk bs = some sd) :
+    SignedData.decode keyOk sd.encode = some sd := by
+  have ⟨hw, hk, hc⟩ := SignedData.decode_wf keyOk hb h
+  have := SignedData.decode_encode keyOk hw hk
+  rwa [hc] at this
+
 end Wire
